@@ -152,6 +152,10 @@ def plan(tier):
         h = Solve(n=4, target_type="stabilizer", det=1)
         h.parallel = True
         jobs.append((h, {"time_budget": 600}))
+        h = Solve(n=5, target_type="stabilizer", det=1)
+        h.parallel = True
+        h.partial_ok = True
+        jobs.append((h, {"time_budget": 60, "chunk_paths": 8, "chunk_s": 8.0}))
     else:
         h = Solve(n=5, target_type="stabilizer", det="probabilistic")
         h.parallel = True
